@@ -31,6 +31,10 @@ MC_CONSTS = {
                         MultCounts="NoMult", MaxDepth=1, MaxOpen=2, EmitAll="TRUE"),
     "thorough_fault": dict(MaxLen=5, NodeToks="NodesF", SymToks="SymOne", RingToks="Rings3",
                            MultCounts="NoMult", MaxDepth=2, MaxOpen=2, EmitAll="TRUE"),
+    "quick_ringfault": dict(MaxLen=7, NodeToks="Nodes1", SymToks="NoSym", RingToks="Rings2",
+                            MultCounts="NoMult", MaxDepth=1, MaxOpen=2, EmitAll="TRUE"),
+    "thorough_ringfault": dict(MaxLen=8, NodeToks="Nodes1", SymToks="SymOne", RingToks="Rings3",
+                               MultCounts="NoMult", MaxDepth=1, MaxOpen=3, EmitAll="TRUE"),
     "sim": dict(MaxLen=40, NodeToks="Nodes4", SymToks="SymAll", RingToks="Rings4",
                 MultCounts="NoMult", MaxDepth=4, MaxOpen=4, EmitAll="FALSE"),
     "sim_mult": dict(MaxLen=24, NodeToks="Nodes3", SymToks="SymAll", RingToks="Rings2",
@@ -51,7 +55,7 @@ def write_cfg(name, consts, invariants):
             os.symlink(os.path.join(common.SPEC, f), os.path.join(d, f))
     lines = ["SPECIFICATION Spec", "CONSTANTS"]
     for k, v in consts.items():
-        if isinstance(v, str) and v not in ("TRUE", "FALSE"):
+        if isinstance(v, str) and v not in ("TRUE", "FALSE") and not v.startswith('"'):
             lines.append(f"  {k} <- {v}")
         else:
             lines.append(f"  {k} = {v}")
@@ -319,6 +323,8 @@ def inject_faults(toks, rng, per=4):
 def graph_fault_records(check, tier):
     key = "quick_fault" if tier == "quick" else "thorough_fault"
     toks, r = mc_run(check, key)
+    toks2, r2 = mc_run(check, "quick_ringfault" if tier == "quick" else "thorough_ringfault")
+    toks = toks + toks2
     nsim = 150 if tier == "quick" else 1500
     sim, _ = mc_run(check, "sim", invariants=False, simulate=f"num={nsim}", depth=30, seed=common.SEED + 3)
     rng = common.rng("c20")
@@ -356,6 +362,8 @@ def run_c20(tier):
                   "seeded positions of simulated long strings; expected outcome computed by the spec "
                   "(CGGraph!Fault, Annot!BindError); non-trivial = the spec expects an error")
     run_c20_graph(check, tier)
+    from . import annot
+    annot.run_c20_annot(check, tier)
     try:
         from . import resolve
         if hasattr(resolve, "run_c20_resolver"):
